@@ -22,12 +22,13 @@
 EXTENDS MatchSem, Json, IOUtils
 
 Rec == ndJsonDeserialize(IOEnv.TRACE)
-VARIABLE l
-Init == l \in 1..Len(Rec)
-Next == UNCHANGED l
+\* TLC does not cache Rec: the record of a line is carried in the state so the file is parsed once
+VARIABLES l, rec
+Init == LET R == Rec IN \E i \in 1..Len(R) : l = i /\ rec = R[i]
+Next == UNCHANGED <<l, rec>>
 
-Report(what, detail) == PrintT(<<"MISMATCH", ToJson([line |-> l, id |-> Rec[l].id, what |-> what, detail |-> detail])>>)
-Note(what, detail)   == PrintT(<<"NOTE", ToJson([line |-> l, id |-> Rec[l].id, what |-> what, detail |-> detail])>>)
+Report(what, detail) == PrintT(<<"MISMATCH", ToJson([line |-> l, id |-> rec.id, what |-> what, detail |-> detail])>>)
+Note(what, detail)   == PrintT(<<"NOTE", ToJson([line |-> l, id |-> rec.id, what |-> what, detail |-> detail])>>)
 
 Values(r) == {r.args[j].v : j \in 1..Len(r.args)}
 (* input classes: what the quoting rules are about, per clause *)
@@ -71,7 +72,7 @@ ParseStrChecks(r) ==
         \/ Note("reads-differently", [spec_reads |-> Shape(spec), style |-> r.style]))
 
 LineOk ==
-  LET r == Rec[l] IN
+  LET r == rec IN
   CASE r.ev = "RuleStr" -> RuleStrChecks(r)
     [] r.ev = "ParseStr" -> ParseStrChecks(r)
     [] OTHER -> TRUE
